@@ -795,3 +795,85 @@ Proof.
     + intros e He. eapply Permutation_in in He; [|exact Pm].
       destruct (in_number zero_pt_box boxes e He) as [L Eb]. unfold ckey. rewrite Eb. apply H, L.
 Qed.
+
+(* ---------- TraverseIntersectingRay with an iterator that narrows the range ---------- *)
+Section Traverse.
+  Variable it : nat -> Q * Q -> Q * Q.
+  Variable ry : ray.
+  Variable rl : Q * Q.                      (* a range every narrowed range still contains *)
+  Definition rsub (a b : Q * Q) : Prop := (fst b <= fst a)%Q /\ (snd a <= snd b)%Q.
+  Hypothesis it_shrinks : forall i r, rsub (it i r) r.
+  Hypothesis it_keeps : forall i r, rsub rl r -> rsub rl (it i r).
+
+  Lemma rsub_refl r : rsub r r.
+  Proof. split; apply Qle_refl. Qed.
+  Lemma rsub_trans a b c : rsub a b -> rsub b c -> rsub a c.
+  Proof. unfold rsub. intros [? ?] [? ?]. split; lra. Qed.
+
+  Lemma slab_range b r1 r2 : wf_box b -> rsub r1 r2 -> slab b ry r1 = true -> slab b ry r2 = true.
+  Proof. intros W [H1 H2]. apply slab_mono; auto. apply box_sub_refl. Qed.
+
+  Lemma trav_fold els : forall acc rc r,
+    (forall e, In e els -> wf_box (e_box e)) -> rsub rc r -> rsub rl rc ->
+    let res := fold_left (fun (st : list nat * (Q * Q)) e =>
+                 let (vis, r0) := st in
+                 if slab (e_box e) ry r0 then (vis ++ [e_idx e], it (e_idx e) r0) else (vis, r0)) els (acc, rc) in
+    rsub (snd res) r /\ rsub rl (snd res) /\
+    (forall i, In i (fst res) -> In i acc \/ exists e, In e els /\ e_idx e = i /\ slab (e_box e) ry r = true) /\
+    (forall i, In i acc -> In i (fst res)) /\
+    (forall e, In e els -> slab (e_box e) ry rl = true -> In (e_idx e) (fst res)).
+  Proof.
+    induction els as [|e els IH]; intros acc rc r W H1 H2; cbn [fold_left].
+    - cbn [fst snd]. split; [exact H1|]. split; [exact H2|]. split; [intros i Hi; left; exact Hi|]. split; [auto|]. intros e [].
+    - assert (We : wf_box (e_box e)) by (apply W; left; reflexivity).
+      assert (W' : forall x, In x els -> wf_box (e_box x)) by (intros x Hx; apply W; right; exact Hx).
+      destruct (slab (e_box e) ry rc) eqn:S.
+      + specialize (IH (acc ++ [e_idx e]) (it (e_idx e) rc) r W'
+                       (rsub_trans _ _ _ (it_shrinks _ _) H1) (it_keeps _ _ H2)).
+        cbv zeta in *. destruct IH as (A & B & C & D & E). split; [exact A|]. split; [exact B|]. split; [|split].
+        * intros i Hi. apply C in Hi. destruct Hi as [Hi|(x & Hx & Ex & Sx)].
+          -- apply in_app_iff in Hi. destruct Hi as [Hi|[<-|[]]]; [left; exact Hi|].
+             right. exists e. split; [left; reflexivity|]. split; [reflexivity|].
+             eapply slab_range; eassumption.
+          -- right. exists x. split; [right; exact Hx|]. split; assumption.
+        * intros i Hi. apply D. apply in_app_iff. left; exact Hi.
+        * intros x [<-|Hx] Sx; [apply D, in_app_iff; right; left; reflexivity | apply E; assumption].
+      + specialize (IH acc rc r W' H1 H2). cbv zeta in *. destruct IH as (A & B & C & D & E). split; [exact A|]. split; [exact B|]. split; [|split; [exact D|]].
+        * intros i Hi. apply C in Hi. destruct Hi as [Hi|(x & Hx & Ex & Sx)]; [left; exact Hi|].
+          right. exists x. split; [right; exact Hx|]. split; assumption.
+        * intros x [<-|Hx] Sx; [|apply E; assumption].
+          rewrite (slab_range _ rl rc We H2 Sx) in S. discriminate.
+  Qed.
+
+  (* every visited element passes the bounds test for the range the caller gave, and every element
+     that passes it for the range that is never cut away is visited *)
+  Theorem traverse_sandwich : forall t r, inv t -> rsub rl r ->
+    (forall i, In i (traverse it t ry r) -> In i (scan (fun b => slab b ry r) t)) /\
+    (forall e, In e (tree_elems t) -> slab (e_box e) ry rl = true -> In (e_idx e) (traverse it t ry r)).
+  Proof.
+    induction t as [b els ch IH] using tree_ind'. intros r Hinv Hr.
+    pose proof (inv_elems _ Hinv) as Hel. cbn [tbox] in Hel.
+    rewrite inv_node in Hinv. destruct Hinv as [_ Hch].
+    cbn [traverse]. destruct (slab b ry r) eqn:S.
+    2:{ split; [intros i []|]. intros e He Se. exfalso. destruct (Hel e He) as [W Sb].
+        destruct Hr as [R1 R2]. rewrite (slab_mono _ _ ry rl r Sb W R1 R2 Se) in S. discriminate. }
+    assert (Wels : forall e, In e els -> wf_box (e_box e)).
+    { intros e He. apply Hel. cbn [tree_elems]. apply in_app_iff. left; exact He. }
+    pose proof (trav_fold els [] r r Wels (rsub_refl r) Hr) as T. cbv zeta in T.
+    unfold trav_els. destruct (fold_left _ els ([], r)) as [vis r'] eqn:F. cbn [fst snd] in T.
+    destruct T as (A & B & C & _ & E).
+    rewrite Forall_forall in IH, Hch. split.
+    - intros i Hi. rewrite scan_node. apply in_app_iff in Hi. apply in_app_iff. destruct Hi as [Hi|Hi].
+      + left. apply C in Hi. destruct Hi as [[]|(e & He & <- & Se)].
+        apply in_map, filter_In. split; assumption.
+      + right. apply in_flat_map in Hi. destruct Hi as (c & Hc & Hi). apply in_flat_map. exists c. split; [exact Hc|].
+        destruct (IH c Hc r' (Hch c Hc) B) as [U _]. apply U in Hi.
+        unfold scan in *. apply in_map_iff in Hi. destruct Hi as (e & <- & He). apply filter_In in He. destruct He as [He Se].
+        apply in_map, filter_In. split; [exact He|].
+        destruct (inv_elems c (Hch c Hc) e He) as [W _]. eapply slab_range; eassumption.
+    - intros e He Se. cbn [tree_elems] in He. apply in_app_iff in He. apply in_app_iff. destruct He as [He|He].
+      + left. apply E; assumption.
+      + right. apply in_flat_map in He. destruct He as (c & Hc & He). apply in_flat_map. exists c. split; [exact Hc|].
+        destruct (IH c Hc r' (Hch c Hc) B) as [_ L]. apply L; assumption.
+  Qed.
+End Traverse.
